@@ -27,10 +27,13 @@ def cost_ld(x, y, R, t, c):
     return float(np.sum(r * r))
 
 
-def noise_floor(x, y, c):
-    """squared residual that float64 rounding of the coordinates alone can cause"""
+def noise_floor(x, y, c, cost=0.0):
+    """change of a sum of squared residuals that float64 rounding of the coordinates alone can cause:
+    n d^2 + 2 d sqrt(n cost) for a per-coordinate perturbation d = 64 eps max|coord|"""
     coords = max(float(np.abs(x).max()) * max(1.0, abs(float(c))), float(np.abs(y).max()), 1e-300)
-    return x.shape[1] * (64 * rm.EPS * coords) ** 2 + 1e-300
+    d = 64 * rm.EPS * coords
+    n = x.shape[1]
+    return n * d * d + 2 * d * math.sqrt(n * max(float(cost), 0.0)) + 1e-300
 
 
 def build_xy(case):
@@ -113,7 +116,7 @@ def check_result(x, y, res, with_scale, case_label, allow_skip_opt=False):
     spread = float(np.sum(yc * yc))
     ce = cost_ld(x, y, r, t, c)
     chh = cost_ld(x, y, Rh, th, ch)
-    slack = 1e-8 * spread + noise_floor(x, y, c)
+    slack = 1e-8 * spread + noise_floor(x, y, c, max(ce, chh))
     if ce > chh + slack:
         if abs(ce - chh) <= 1e-6 * max(ce, chh) and x.shape[1] <= 200:
             fe = rm.exact_cost(x, y, r, t, c)
@@ -131,7 +134,7 @@ def competitors(x, y, res, with_scale, case, ce, spread, label):
     """cost of evo's answer must not exceed that of perturbed / random transformations of the same class"""
     r, t, c = res
     rng = gen.bulk_rng(case["pseed"])
-    slack = 1e-9 * spread + noise_floor(x, y, c)
+    slack = 1e-9 * spread + noise_floor(x, y, c, ce)
     ext = math.sqrt(spread / max(1, x.shape[1])) + 1e-300
     mx = x.mean(axis=1)
     my = y.mean(axis=1)
